@@ -1,11 +1,13 @@
 """Per-property specifications and the generic check pipeline."""
 import json
 import os
+import re
 import time
 from concurrent.futures import ThreadPoolExecutor
 
 import vlib
 import mon_integer
+import mon_engine
 
 TRUSTED_BASE = [
     "Coq 8.16.1 kernel (coqc, full .vo build; vm_compute used in witness lemmas; no native_compute)",
@@ -17,21 +19,54 @@ TRUSTED_BASE = [
 
 
 class Family:
-    def __init__(self, name, shards_quick=1, shards_thorough=1, extra=()):
+    """one harness family; `shards(tier)` gives the extra argument lists, one per parallel shard"""
+    def __init__(self, name, quick=None, thorough=None):
         self.name = name
-        self.shards_quick = shards_quick
-        self.shards_thorough = shards_thorough
-        self.extra = list(extra)
+        self.quick = quick or [[]]
+        self.thorough = thorough or self.quick
+
+    def shards(self, tier):
+        return self.thorough if tier == "thorough" else self.quick
+
+
+def eng(n, coll="-", feed="-", profile="general"):
+    return [str(n), coll, feed, profile]
 
 
 class Spec:
-    def __init__(self, prop, families, monitor, rule, div_filter=None, design_ref="7", assumptions=()):
+    def __init__(self, prop, families, monitor, rule, keys=None, assumptions=(), classify=None):
         self.prop = prop
         self.families = families
         self.monitor = monitor
         self.rule = rule
-        self.div_filter = div_filter or (lambda line: True)
+        self.keys = keys            # regex over observation keys whose divergence concerns this property
         self.assumptions = list(assumptions)
+
+    def div_filter(self, line):
+        if self.keys is None:
+            return True
+        m = re.search(r"model=\[([^\]=]*)", line)
+        if not m:
+            return True
+        k = m.group(1).strip()
+        if k.startswith("result") or k.startswith("no-model-key") or k.startswith("model:") or k.startswith("UNKNOWN"):
+            return True
+        return re.match(self.keys, k) is not None
+
+
+ENGINE_RULE = ("structured random histories against generated deployments (cw20/native collateral, 6-12 decimals, mock/real feed, 1-2 vAMMs, "
+               "ratios/fees/caps on boundary values) with boundary tuners (slippage limit at quoted amount +-1, leverage at exactly 1/initial ratio, "
+               "maintenance ratio := observed margin ratio +-1, clock := next funding time +-1, oracle := spot x (1 +- 10%), withdraw := free collateral +-1) "
+               "and a capped malformed stream; a case = one operation in its pre-state; non-trivial = the operation reached the reply path / guard the "
+               "property talks about (counted per path in `distribution.paths`), distinct by (history, step)")
+
+Q8 = lambda prof, n=30: [eng(n, "-", "-", prof)] * 1
+def shards(k, n, coll="-", feed="-", prof="general"):
+    return [eng(n, coll, feed, prof) for _ in range(k)]
+
+
+def engine_spec(prop, keys, quick, thorough, assumptions=()):
+    return Spec(prop, [Family("engine", quick, thorough)], mon_engine.monitor_for(prop), ENGINE_RULE, keys, assumptions)
 
 
 SPECS = {
@@ -45,19 +80,41 @@ SPECS = {
         "non-trivial = binary operation or predicate on an operator-produced value",
         assumptions=["strings passed to from_str are ASCII (a multi-byte first character makes `&input[..1]` panic; not modelled)"],
     ),
+    "C02": engine_spec("C02", r"(p\d+\.\d+(\.size|\.dir)?$|v\d+\.total)",
+                       shards(6, 25) + shards(2, 25, prof="liq"), shards(12, 150) + shards(4, 150, prof="liq")),
+    "C03": engine_spec("C03", r"bal\.", shards(4, 25, "cw20") + shards(4, 25, "native"), shards(8, 150, "cw20") + shards(8, 150, "native")),
+    "C04": engine_spec("C04", r"(bal\.|p\d+\.\d+|e\.baddebt|v\d+\.(q|b|cpf))",
+                       shards(6, 25) + shards(2, 25, prof="funding"), shards(12, 150) + shards(4, 150, prof="funding")),
+    "C05": engine_spec("C05", r"(bal\.|p\d+\.\d+|e\.(init|maint))", shards(8, 25), shards(16, 150)),
+    "C06": engine_spec("C06", r"(bal\.|p\d+\.\d+|e\.(maint|liqfee|plr|baddebt)|v\d+\.(overspread|q|b))",
+                       shards(8, 25, prof="liq"), shards(16, 150, prof="liq")),
+    "C07": engine_spec("C07", r"(p\d+\.\d+|e\.|v\d+\.(overspread|uprice|open)|if\.)",
+                       shards(6, 25, prof="liq") + shards(2, 20, "-", "real", "liq"), shards(12, 150, prof="liq") + shards(4, 100, "-", "real", "liq")),
+    "C10": engine_spec("C10", r"p\d+\.\d+", shards(8, 25), shards(16, 150)),
+    "C11": engine_spec("C11", r"(v\d+\.(cpf|nextfund|twap|utwap|total|frate|ncpf)|bal\.(2|3)$|p\d+\.\d+\.(lupf|margin))",
+                       shards(8, 25, prof="funding"), shards(16, 150, prof="funding")),
+    "C12": engine_spec("C12", r"(bal\.|v\d+\.(toll|spread))", shards(8, 25), shards(16, 150)),
+    "C16": engine_spec("C16", r"(v\d+\.lrb|p\d+\.\d+\.block|p\d+\.\d+$)", shards(8, 25, prof="liq"), shards(16, 150, prof="liq")),
+    "C20": engine_spec("C20", r"(e\.(init|maint|plr|liqfee|oi|wl)|v\d+\.(toll|spread|fluct|twapint|holdcap|oicap|dec)|if\.|p\d+\.\d+\.size)",
+                       shards(8, 25, prof="caps"), shards(16, 150, prof="caps")),
+    "C15": engine_spec("C15", r"(v\d+\.(q|b|spot|s0|s1|fluct|snaps)|p\d+\.\d+(\.size)?$|e\.plr)",
+                       shards(8, 25, prof="fluct"), shards(16, 150, prof="fluct")),
+    "C14": engine_spec("C14", r"(e\.pause|v\d+\.open|if\.)", shards(8, 25, prof="pause"), shards(16, 150, prof="pause")),
+    "C08": engine_spec("C08", r"(e\.(tmpswap|sentfunds|tmpliq)|bal\.|p\d+\.|v\d+\.(q|b|total))", shards(8, 25), shards(16, 150)),
 }
 
 
 def generate(spec, tier, seed):
     d = vlib.trace_dir(spec.prop)
     jobs, paths = [], []
+    k = 0
     for fam in spec.families:
-        n = fam.shards_thorough if tier == "thorough" else fam.shards_quick
-        for i in range(n):
-            path = os.path.join(d, f"{fam.name}-{seed}-{i}.trace")
+        for i, extra in enumerate(fam.shards(tier)):
+            path = os.path.join(d, f"{fam.name}-{seed}-{k}.trace")
             paths.append(path)
-            s = seed * 1000 + i
-            jobs.append(lambda fam=fam, path=path, s=s: vlib.run_harness(fam.name, path, s, tier, fam.extra))
+            s = seed * 1000 + k
+            k += 1
+            jobs.append(lambda fam=fam, path=path, s=s, extra=extra: vlib.run_harness(fam.name, path, s, tier, extra))
     outs = vlib.parallel(jobs)
     for (rc, out), path in zip(outs, paths):
         if rc != 0:
